@@ -1,4 +1,6 @@
 import DaeVerif.C16.Proofs
+import DaeVerif.C16.Probe
+import DaeVerif.C16.KMap
 /-!
 # C16 — property theorems
 
@@ -11,6 +13,9 @@ histories / latency inputs, and is followed by a non-vacuity `example`.
 Clause map of the property statement:
 * thresholds — `dead_only_after_threshold` ("only after"), `kth_consecutive_failure_kills` ("exactly at", back to
   back), `threshold_reached_kills`, `below_threshold_stays`;
+* the probe loop (which probes an iteration of `aliveBackground` runs) — `probe_loop_runs_exactly_the_table`,
+  `probe_loop_never_revives_data_udp`, `probe_loop_order_irrelevant`; an iteration is a list of `probe` events, so the
+  history theorems below cover it;
 * forced report / escalation — `forced_report_kills_immediately`, `escalation_takes_all_types_down`,
   `escalation_only_after_three_deaths`;
 * success revives and clears — `success_revives_and_clears`, `data_udp_traffic_revives`,
@@ -23,13 +28,98 @@ Clause map of the property statement:
 * kernel bit — `kernel_bit`, `group_callbacks_are_edges`, `random_policy_never_writes`, `kernel_key_injective`,
   `kernel_key_slots`, `kernel_callback_guards`; the map shared by generations:
   `kernel_map_changed_only_by_live_report`, `kernel_map_untouched_by_wiring_and_retirement`,
-  `kernel_map_is_last_live_report_partial`;
+  `kernel_map_is_last_live_report_in_step`, `kernel_map_follows_newest_live_group` (history level);
 * reload — `reload_hands_over_state`, `reload_snapshot_drops_counters`, `handover_matches_per_group`,
   `handover_unmatched_node_untouched`, `reload_leaves_every_group_selectable`,
-  `reload_old_order_leaves_group_empty`, `reload_floor_leaves_selectable` (one floor step).
+  `reload_old_order_leaves_group_empty`, `reload_floor_leaves_selectable` (one floor step),
+  `reload_leaves_every_group_selectable_by_select`, `captured_fallback_is_listed` (`CaptureReloadSelectionFallback`).
 -/
 namespace DaeVerif.C16.Props
 open DaeVerif.C16
+
+/-! ## the probe loop -/
+
+/-- **Which probes run.** One iteration of `aliveBackground` for node `n` consists of exactly the probes
+of TCP/4, TCP/6, DNS-UDP/4, DNS-UDP/6 that belong to the triggered family (all four for a periodic /
+`NotifyCheck` iteration) and whose collection has a registered set listing `n` — each with the two
+attempts the script gives it, each at most once, never a data-UDP probe. -/
+theorem probe_loop_runs_exactly_the_table (w : World) (n : Nat) (fam : Family) (sc : Typ → Attempt × Attempt)
+    (o : Oracle) :
+    (∀ e, e ∈ cycleEvents w n fam sc o ↔
+      ∃ t, (t = .t4 ∨ t = .t6 ∨ t = .d4 ∨ t = .d6) ∧ fam.selects t = true ∧ w.probed n t = true ∧
+        e = .probe n t (sc t).1 (sc t).2 o) ∧
+    ((cycleOpts w n fam).map Typ.idx).Nodup ∧
+    (∀ t ∈ cycleOpts w n fam, t.isData = false ∧ (t.idx = 2 ∨ t.idx = 3 ∨ t.idx = 4 ∨ t.idx = 5)) := by
+  refine ⟨fun e => ?_, cycleOpts_nodup w n fam, fun t ht => ?_⟩
+  · simp only [cycleEvents, List.mem_map, cycleOpts_mem, probeTable, List.mem_cons, List.not_mem_nil, or_false]
+    constructor
+    · rintro ⟨t, ⟨h1, h2, h3⟩, rfl⟩; exact ⟨t, h1, h2, h3, rfl⟩
+    · rintro ⟨t, h1, h2, h3, rfl⟩; exact ⟨t, ⟨h1, h2, h3⟩, rfl⟩
+  · have hm := ((cycleOpts_mem w n fam t).mp ht).1
+    refine ⟨?_, probeTable_idx t hm⟩
+    simp only [probeTable, List.mem_cons, List.not_mem_nil, or_false] at hm
+    rcases hm with rfl | rfl | rfl | rfl <;> rfl
+
+/-- a targeted TCP iteration of a node used by a group: the two TCP probes, nothing else; an unused node: nothing -/
+example :
+    let w := (run World.init [.node 0 0, .node 1 0, .group 0 2 .minLast 0 [(0, 0)] []]).1
+    cycleOpts w 0 .tcp = [.t4, .t6] ∧ cycleOpts w 0 .udp = [.d4, .d6] ∧ cycleOpts w 0 .full = [.t4, .t6, .d4, .d6] ∧
+      cycleOpts w 1 .full = [] ∧ cycleOpts (step w (.close 0)).1 0 .full = [] := by decide
+
+/-- **Data UDP is never revived by the probe loop**: whatever the probes of an iteration meet, a data-UDP slot
+(of any node) that is not alive before the iteration is not alive after it — only traffic revives it. -/
+theorem probe_loop_never_revives_data_udp (w : World) (n : Nat) (fam : Family) (sc : Typ → Attempt × Attempt)
+    (o : Oracle) (m i : Nat) (hi : i = 6 ∨ i = 7) (h : (w.nodes m).alive i = false) :
+    ((run w (cycleEvents w n fam sc o)).1.nodes m).alive i = false := by
+  rw [cycleEvents_eq]
+  refine run_probes_dead_stays n sc o m i _ w (fun t ht hh => ?_) h
+  have := probeTable_idx t ((cycleOpts_mem w n fam t).mp ht).1
+  omega
+
+example :
+    let w := (run World.init [.node 0 0, .group 0 2 .minLast 0 [(0, 0)] [], .forced 0 .u4 []]).1
+    ((run w (cycleEvents w 0 .full (fun _ => (.ok 1, .err)) [])).1.nodes 0).alive 6 = false ∧
+      ((step w (.tok 0 .u4 [])).1.nodes 0).alive 6 = true := by decide
+
+/-- **The order of the probes of one iteration is irrelevant** (they run concurrently on pool workers).  For a
+node without a proxy address (no cross-domain escalation), outside the quiesce window of a reload (the
+suppression state cannot change while the iteration runs), and any list of probes of pairwise different
+collections: each probed slot ends exactly as if its probe had run alone on the state before the iteration,
+every other slot of the node is untouched.  Hence any two orders of the same probes leave the node in the
+same state (alive flag and both counters of every slot). -/
+theorem probe_loop_order_irrelevant (w : World) (n : Nat) (sc : Typ → Attempt × Attempt) (o : Oracle)
+    (ts ts' : List Typ) (hperm : ts.Perm ts') (hnd : (ts.map Typ.idx).Nodup) (haddr : (w.nodes n).addr = 0)
+    (hst : 0 < w.supCount ∨ w.supUntil ≤ w.now) :
+    (∀ t ∈ ts, slotOf ((run w (probeEvents n sc o ts)).1.nodes n) t.idx =
+      slotOf ((step w (.probe n t (sc t).1 (sc t).2 o)).1.nodes n) t.idx) ∧
+    (∀ i, i ∉ ts.map Typ.idx → slotOf ((run w (probeEvents n sc o ts)).1.nodes n) i = slotOf (w.nodes n) i) ∧
+    (∀ i, slotOf ((run w (probeEvents n sc o ts)).1.nodes n) i = slotOf ((run w (probeEvents n sc o ts')).1.nodes n) i) := by
+  have hnd' : (ts'.map Typ.idx).Nodup := (hperm.map Typ.idx).nodup_iff.mp hnd
+  obtain ⟨a1, a2, _⟩ := run_probes_slots n sc o ts w hnd haddr hst
+  obtain ⟨b1, b2, _⟩ := run_probes_slots n sc o ts' w hnd' haddr hst
+  refine ⟨a1, a2, fun i => ?_⟩
+  by_cases hi : i ∈ ts.map Typ.idx
+  · obtain ⟨t, ht, rfl⟩ := List.mem_map.mp hi
+    rw [a1 t ht, b1 t (hperm.mem_iff.mp ht)]
+  · have hi' : i ∉ ts'.map Typ.idx := fun h => hi ((hperm.map Typ.idx).mem_iff.mpr h)
+    rw [a2 i hi, b2 i hi']
+
+/-- TCP/4 fails, DNS-UDP/6 fails for the third time, TCP/6 succeeds: same node state in both orders; with a
+proxy address the order can matter (the third death escalates — or not, if the success came first) -/
+example :
+    let w := (run World.init [.node 0 0, .probe 0 .d6 .err .err [], .probe 0 .d6 .err .err []]).1
+    let sc : Typ → Attempt × Attempt := fun t => if t = .t6 then (.ok 0, .err) else (.err, .err)
+    ([2, 3, 4, 5, 6, 7].map fun i => slotOf ((run w (probeEvents 0 sc [] [.t4, .t6, .d6])).1.nodes 0) i) =
+      [(true, 0, 0), (false, 3, 0), (false, 1, 0), (true, 0, 0), (true, 0, 0), (true, 0, 0)] ∧
+    ([2, 3, 4, 5, 6, 7].map fun i => slotOf ((run w (probeEvents 0 sc [] [.d6, .t6, .t4])).1.nodes 0) i) =
+      [(true, 0, 0), (false, 3, 0), (false, 1, 0), (true, 0, 0), (true, 0, 0), (true, 0, 0)] := by decide
+
+example :
+    let w := (run World.init [.node 0 1, .probe 0 .d4 .err .err [], .probe 0 .d4 .err .err [], .probe 0 .d6 .err .err [],
+      .probe 0 .d6 .err .err []]).1
+    let sc : Typ → Attempt × Attempt := fun t => if t = .t6 then (.ok 0, .err) else (.err, .err)
+    ((run w (probeEvents 0 sc [] [.t4, .d4, .d6, .t6])).1.nodes 0).alive 6 = false ∧
+    ((run w (probeEvents 0 sc [] [.t4, .d4, .t6, .d6])).1.nodes 0).alive 6 = true := by decide
 
 /-! ## thresholds -/
 
@@ -388,21 +478,56 @@ theorem kernel_map_changed_only_by_live_report (kw : KWorld) (e : Event) (key : 
 
 /-- Wiring a group and retiring / closing a core write nothing. -/
 theorem kernel_map_untouched_by_wiring_and_retirement (kw : KWorld) (g c ob : Nat) (d : Bool) :
-    (kstep kw (.wire g c ob d)).kmap = kw.kmap ∧ (kstep kw (.silence c)).kmap = kw.kmap := ⟨rfl, rfl⟩
+    (kstep kw (.wire g c ob d)).kmap = kw.kmap ∧ (kstep kw (.silence c)).kmap = kw.kmap := by
+  refine ⟨?_, rfl⟩
+  simp only [kstep]; split <;> rfl
 
-/-- **Partial** (step level): after a step, a slot holds the value of the LAST live report to it in that
-step, whichever generation sent earlier ones — so once the old generation is retired the bit is the
-new generation's last report.  Missing for full strength: the statement "= the newest live group's set
-is non-empty" across steps needs the set's ghost `kbit` related to the step's callback list for every
-primitive; that link is carried by the tie (the real map of two generations on shared outbound ids,
-with the real `MarkRetired`, is compared with `kmap` after every event). -/
-theorem kernel_map_is_last_live_report_partial (kw : KWorld) (e : Event) (pre post : List Out) (x : Out)
+/-- Step level: after a step, a slot holds the value of the LAST live report to it in that step, whichever
+generation sent earlier ones (the history-level statement is `kernel_map_follows_newest_live_group`). -/
+theorem kernel_map_is_last_live_report_in_step (kw : KWorld) (e : Event) (pre post : List Out) (x : Out)
     (key v : Nat) (hs : (step kw.w e).2 = pre ++ x :: post)
     (hx : LiveWrite { kw with w := (step kw.w e).1 } x key v)
     (hpost : ∀ y ∈ post, ¬ ∃ v', LiveWrite { kw with w := (step kw.w e).1 } y key v') :
     (kstep kw (.base e)).kmap key = v := by
   simp only [kstep, hs]
   exact applyOuts_last pre post x _ key v hx hpost
+
+/-- **The shared map across steps and generations.** After ANY history of health events, group constructions,
+wirings (`core.outboundAliveChangeCallback(ob, dryrun)` handed to a new group) and retirements / closings of cores,
+with any latency inputs: if the group that wrote slot `(ob, network type)` last is a group whose core is neither
+retired nor closed and that reports non-init callbacks (`dial_mode: ip`), the slot holds the value last handed to
+that group's callback for that network type — for a latency policy: 1 if the group's alive set of that type is
+non-empty, 0 if it is empty (or still the unconditional 1 of the init callbacks when no callback has fired since).
+A retired generation's later transitions, or writes of groups on other outbound ids, never disturb this. -/
+theorem kernel_map_follows_newest_live_group (h : List KEvent) :
+    ∀ s ∈ (krun KWorld.init h).w.sets, ∀ k, (krun KWorld.init h).wiring s.gid = some k → k.dryrun = false →
+      (krun KWorld.init h).silenced k.core = false →
+      (krun KWorld.init h).lastWriter (kernelKey k.ob s.idx) = some s.gid →
+      (krun KWorld.init h).kmap (kernelKey k.ob s.idx) = (if s.kbit then 1 else 0) ∧
+      (s.minPolicy = true →
+        (s.entries ≠ [] → (krun KWorld.init h).kmap (kernelKey k.ob s.idx) = 1) ∧
+        (s.entries = [] → (krun KWorld.init h).kmap (kernelKey k.ob s.idx) = 0 ∨ s.ncb = 0)) := by
+  intro s hs k hw hd hsil hlw
+  have hinv := krun_inv h KWorld.init kinv_init
+  have hmap := hinv.agree s hs k hw hd hsil hlw
+  refine ⟨hmap, fun hmp => ?_⟩
+  have hgood : GoodSet s := by
+    have := run_good (baseOf h) World.init (by intro s hs; simp [World.init] at hs)
+    rw [krun_w] at hs
+    exact this s hs
+  rw [hmap]
+  refine ⟨fun hne => ?_, fun he => ?_⟩
+  · rw [((hgood.bit hmp).1 hne)]; rfl
+  · rcases (hgood.bit hmp).2 he with hb | hn
+    · left; rw [hb]; rfl
+    · right; exact hn
+
+/-- which group wrote a slot last: the group of the last live report of the step, else as before -/
+theorem kernel_map_last_writer (kw : KWorld) (e : Event) (key : Nat) :
+    (kstep kw (.base e)).lastWriter key =
+      (((writesTo { kw with w := (step kw.w e).1 } key (step kw.w e).2).getLast?.map fun p => some p.2).getD
+        (kw.lastWriter key)) :=
+  (applyOuts_writes (step kw.w e).2 { kw with w := (step kw.w e).1 } key).2
 
 set_option maxRecDepth 8000 in
 /-- two generations on outbound id 5: the old group (core 0) goes empty and writes 0; after `MarkRetired`
@@ -412,7 +537,10 @@ example :
       .base (.node 1 0), .wire 1 1 5 false, .base (.group 1 5 .minLast 0 [(1, 0)] []),
       .base (.forced 0 .t4 []), .silence 0, .base (.tok 0 .u4 []), .base (.probe 0 .t4 (.ok 1) .err [])]
     (krun KWorld.init (h.take 7)).kmap (kernelKey 5 4) = 0 ∧ (krun KWorld.init h).kmap (kernelKey 5 4) = 0 ∧
-    (krun KWorld.init (h ++ [.base (.forced 1 .t4 []), .base (.probe 1 .t4 (.ok 1) .err [])])).kmap (kernelKey 5 4) = 1 := by
+    (krun KWorld.init (h ++ [.base (.forced 1 .t4 []), .base (.probe 1 .t4 (.ok 1) .err [])])).kmap (kernelKey 5 4) = 1 ∧
+    -- the hypotheses of `kernel_map_follows_newest_live_group` hold for the new generation's TCP4 set at the end
+    (krun KWorld.init (h ++ [.base (.forced 1 .t4 []), .base (.probe 1 .t4 (.ok 1) .err [])])).lastWriter (kernelKey 5 4) = some 1 ∧
+    (krun KWorld.init (h.take 9)).lastWriter (kernelKey 5 4) = some 0 := by
   decide
 
 /-! ## reload -/
@@ -469,6 +597,59 @@ theorem reload_leaves_every_group_selectable (h : List Event) (gs : List ReloadG
   cases hm : s.minD with
   | some _ => rfl
   | none => exact absurd ((h2.sel hmp).mp hm) h1
+
+/-- **Selectable, literally.** Under the hypotheses of `reload_leaves_every_group_selectable`, every latency-policy
+group answers a selection (`_select` / `GetMinLatency`) for each of the six standard network types with a node
+listed in that very set after the hand-over — it does not even need the data-UDP fallback chain or the other IP
+family. -/
+theorem reload_leaves_every_group_selectable_by_select (h : List Event) (gs : List ReloadGroup) (o : Oracle) :
+    ∀ G ∈ gs,
+      (∀ t ∈ standardTyps, ∀ s, findSet (run World.init h).1.sets G.g t.idx = some s →
+        s.active = true ∧ s.members ≠ [] ∧ ∀ c, G.fb t.idx = some c → c ∈ s.members) →
+      ∀ t ∈ standardTyps, ∀ s, findSet (step (run World.init h).1 (.reload gs o)).1.sets G.g t.idx = some s →
+        s.minPolicy = true →
+        ∃ c, selectMin (step (run World.init h).1 (.reload gs o)).1 G.g t.idx = some c ∧ c ∈ keys s.entries := by
+  intro G hG hr t ht s hs hmp
+  have hgood := run_good h World.init (by intro s hs; simp [World.init] at hs)
+  have hnd : SetsAll NodupSet (run World.init h).1 := fun s hs => (hgood s hs).nodup
+  have h1 := reload_all_done (run World.init h).1 gs o hnd G hG hr t ht s hs
+  have h2 : SetInv s := reload_pres GoodSet o (goodSet_stable o) (run World.init h).1 gs hgood s (findSet_mem _ _ _ _ hs).1
+  have hb := (best_some_iff s h2 hmp).mpr h1
+  obtain ⟨c, hc⟩ := Option.isSome_iff_exists.mp hb
+  exact ⟨c, selectMin_head _ G.g t.idx s hs c hc, best_mem s h2 c hc⟩
+
+/-- **What a group captures as its fallback.** After any history, the candidate `CaptureReloadSelectionFallback` of a
+latency-policy group records for a network type is a node currently listed in one of that group's alive sets: the
+set of that type, for data UDP else DNS UDP else TCP of the same family, else the same chain in the other family —
+and nothing when all of those are empty. -/
+theorem captured_fallback_is_listed (h : List Event) (g i c : Nat)
+    (hc : captureFallback (run World.init h).1 g i = some c) :
+    ∃ j ∈ selChain i ++ selChain (otherFamily i), ∃ s,
+      findSet (run World.init h).1.sets g j = some s ∧ c ∈ keys s.entries := by
+  have hgood := run_good h World.init (by intro s hs; simp [World.init] at hs)
+  unfold captureFallback at hc
+  split at hc
+  · unfold captureOne at hc
+    cases h1 : selectMin (run World.init h).1 g i with
+    | some d =>
+      rw [h1] at hc; cases hc
+      obtain ⟨j, hj, s, e1, e2⟩ := selectMin_listed _ hgood g i c h1
+      exact ⟨j, List.mem_append_left _ hj, s, e1, e2⟩
+    | none =>
+      rw [h1] at hc
+      obtain ⟨j, hj, s, e1, e2⟩ := selectMin_listed _ hgood g _ c hc
+      exact ⟨j, List.mem_append_right _ hj, s, e1, e2⟩
+  · cases hc
+
+/-- node 0 dead on data-UDP/4 and DNS-UDP/4: data-UDP/4 falls back to TCP/4's choice (node 0 itself); with TCP/4 dead
+too, to the other family; a group whose only member is dead everywhere captures nothing -/
+example :
+    let w := (run World.init [.node 0 0, .node 1 0, .group 0 2 .minLast 0 [(0, 0), (1, 0)] [], .forced 1 .u4 [], .forced 1 .d4 [],
+      .forced 0 .u4 [], .forced 0 .d4 [], .forced 0 .t4 []]).1
+    captureFallback w 0 6 = some 1 ∧ captureFallback w 0 2 = some 0 ∧
+    captureFallback (step w (.forced 1 .t4 [])).1 0 6 = some 0 ∧ captureFallback w 0 1 = none ∧
+    captureFallback (run World.init [.node 0 0, .group 0 2 .minLast 0 [(0, 0)] [], .forced 0 .t4 [], .forced 0 .t6 []]).1 0 4 = none := by
+  decide
 
 set_option maxRecDepth 8000 in
 /-- old generation: nodes 0 (D), 1 (F) dead on TCP4, node 2 (E) alive; new generation 3 (D), 4 (F), 5 (E),
